@@ -1168,6 +1168,26 @@ def shrink_candidates(doc):
         yield dict(doc, knobs=dict(doc["knobs"], svc_scale=1.0))
     if doc.get("knobs", {}).get("loglevel"):
         yield dict(doc, knobs={k: v for k, v in doc["knobs"].items() if k != "loglevel"})
+    # 6b. simpler formulas: a query text (everywhere it occurs) or a base conditional is replaced
+    #     by one with a sub-formula in place of its consequent / antecedent
+    from sim.models.evalformula import simpler_conditionals
+
+    texts = []
+    for op in ops:
+        if op["op"] == "inference":
+            for _, t in op["batch"]:
+                if t not in texts:
+                    texts.append(t)
+    for t in texts:
+        for t2 in simpler_conditionals(t):
+            yield dict(doc, ops=[dict(op, batch=[[k, (t2 if x == t else x)] for k, x in op["batch"]]) if op["op"] == "inference" else op for op in ops])
+    try:
+        head, items, tail = _split_base(doc["base"]["text"])
+        for j, it in enumerate(items):
+            for it2 in simpler_conditionals(it.replace(" ", "")):
+                yield dict(doc, base=dict(doc["base"], text=_join_base(head, items[:j] + [it2] + items[j + 1 :], tail)))
+    except Exception:  # noqa: BLE001
+        pass
     # 7. smaller fault durations
     for i, f in enumerate(doc["faults"]):
         if f.get("dur") and f["dur"] > 0.01:
